@@ -394,6 +394,27 @@ def ob_walk(size: int, orphan: int, overlap: int, n: int) -> bool:
     return cur[0][0] == 1
 
 
+SRC_E1 = '<dtml-in s start=a end=b size=c orphan=d overlap=e><dtml-call "rec(_)"></dtml-in>'
+
+
+def ob_render_twice(start1: int, size1: int, start2: int, size2: int, orphan: int) -> bool:
+    """batch options given as variable names are resolved per rendering: a second rendering of the SAME compiled template
+    with other values shows the second window"""
+    from crosshair.tracers import NoTracing
+    with NoTracing():
+        t = HTML(SRC_E1)
+        t.cook()
+    n = 6
+    seq = list(range(1, n + 1))
+    for st, sz in ((start1, size1), (start2, size2)):
+        nums = []
+        t(s=seq, a=st, b=0, c=sz, d=orphan, e=0, rec=lambda md: nums.append(md['sequence-number']))
+        w = ref_window(st, 0, sz, orphan, n)
+        if nums != list(range(w[0], w[1] + 1)):
+            return False
+    return True
+
+
 def explain(obname, args):
     if obname.startswith('render_n'):
         n = int(obname[8:])
@@ -421,3 +442,6 @@ for _n in range(1, NMAX + 1):
 OBLIGATIONS.append(Ob('walk_next_then_previous', ob_walk, ['1 <= n <= %d' % tier(5, 8), '1 <= size <= 4', '0 <= orphan <= 3', '0 <= overlap <= 3', 'overlap < size'],
                       timeout=tier(170, 900), data='n <= %d, size 1..4, orphan 0..3, overlap < size' % tier(5, 8),
                       selectors='repeated real renders following next-/previous-sequence-start-number'))
+OBLIGATIONS.append(Ob('render_twice', ob_render_twice, ['1 <= start1 <= 3', '1 <= size1 <= 2', '1 <= start2 <= 3', '1 <= size2 <= 2', '0 <= orphan <= 1'], timeout=tier(250, 900),
+                      data='start/size of two consecutive renderings of one freshly compiled template (symbolic ints through variables), orphan', selectors='6 elements',
+                      stubs='template compiled untraced inside the obligation (fresh object per path)'))
